@@ -6,19 +6,19 @@ HERE = os.path.dirname(os.path.abspath(__file__))
 CLAIMED = {
  'C14': dict(
    category='fault_enumeration',
-   text='Real host + real helper process under a pipe proxy that kills the helper at a chosen request index and protocol phase (before send, after send, reply truncated at 3 cut points, death by BaseException in the handler), idle kills, sequences of up to three deaths incl. death of the replacement during its handshake, seeded GC schedule and clock advances across the 10-minute environment cache. Thorough enumerates every (request, phase-variant) single-fault point of every generated scenario; multi-fault, idle and lifecycle (up to 200 Scripts) plans are seeded search. Judge = executable model of Script-to-helper-generation binding + undisturbed reference run + OS census (zombies, pipe fds, threads) + helper-side state table read through the pipe. Extensions: per-helper-generation model (only Scripts bound to a dead generation may fail; binding a new Script to a helper known to be dead is a violation), two environments alive side by side, a fresh Project per Script so that the simulated clock expires the 10-minute default-environment cache (predecessor helpers must be reaped when unreferenced), gc_now entries that run the collector at a chosen request INSIDE _send (GC schedule at request granularity), flood_then_die (1500 stderr lines, then death in flight), idle kills biased to just before a batch of discarded Scripts is finalised; a subject stopped by its watchdog is a hang (re-run once with a generous limit before it is reported). Scenarios may contain a project module named numpy/pandas/matplotlib/tensorflow (process-wide completion cache keyed by module name); lifecycle runs contain a burst phase (12-20 used Scripts alive at once, dropped together, one collector run, census); flood_then_die also in a binary variant (non-UTF-8 bytes on the stderr of the helper before it dies in flight). The pipe proxy is protocol-agnostic: a flush forwards one message, the next complete reply is pulled when jedi reads.',
+   text='Real host + real helper process under a pipe proxy that kills the helper at a chosen request index and protocol phase (before send, after send, reply truncated at 3 cut points, death by BaseException in the handler), idle kills, sequences of up to three deaths incl. death of the replacement during its handshake, seeded GC schedule and clock advances across the 10-minute environment cache. Thorough enumerates every (request, phase-variant) single-fault point of every generated scenario; multi-fault, idle and lifecycle (up to 200 Scripts) plans are seeded search. Judge = executable model of Script-to-helper-generation binding + undisturbed reference run + OS census (zombies, pipe fds, threads) + helper-side state table read through the pipe. Extensions: per-helper-generation model (only Scripts bound to a dead generation may fail; binding a new Script to a helper known to be dead is a violation), two environments alive side by side, a fresh Project per Script so that the simulated clock expires the 10-minute default-environment cache (predecessor helpers must be reaped when unreferenced), gc_now entries that run the collector at a chosen request INSIDE _send (GC schedule at request granularity), flood_then_die (1500 stderr lines, then death in flight), idle kills biased to just before a batch of discarded Scripts is finalised; a subject stopped by its watchdog is a hang (re-run once with a generous limit before it is reported). Scenarios may contain a project module named numpy/pandas/matplotlib/tensorflow (process-wide completion cache keyed by module name); lifecycle runs contain a burst phase (12-20 used Scripts alive at once, dropped together, one collector run, census); flood_then_die also in a binary variant (non-UTF-8 bytes on the stderr of the helper before it dies in flight); the flooded stderr lines contain % characters. The pipe proxy is protocol-agnostic: a flush forwards one message, the next complete reply is pulled when jedi reads.',
    design_ref='DESIGN.md §3 C14',
    note='Helper-internal interleavings finer than a request are not scheduled (single-threaded strict request/reply listener). "At most one query" is read as at most one Script constructed after the death; Scripts bound to the dead helper may keep raising InternalError. A silent or hanging (alive but mute) helper is not injected. The stderr drain thread runs unscheduled.',
    technique='deterministic simulation with fault injection: seeded helper-death schedules through a pipe proxy, model-based judge, exhaustive single-fault sweep in thorough'),
  'C16': dict(
    category='exploration',
-   text='The nondeterminism sources are the explored dimensions: each generated input (world + buffer with multi-valued shapes + probe table incl. failing requests) is executed in a base process (every probe on a fresh Script) and in K further processes differing in PYTHONHASHSEED, seeded allocator perturbation and GC schedule (ASLR off, so a run is a function of its spec); then on ONE Script under a seeded schedule (permutation with repetitions, ValueError/RefactoringError requests in between) and under the same schedule with 1-3 helper replies replaced by exceptions through the pipe proxy. Oracle: every occurrence of a probe, in any process or schedule position, equals the base result as an ordered list (set for goto). Input families: multi-valued shapes, many call sites of one function, dynamic-parameter search (self-recursive, mutually recursive, many call sites with a late distinguishing argument), arithmetic on literals; the length of the project path is a further configuration dimension; injected helper exceptions are biased towards reference/rename/search queries. Further families: few positions asked with 3-5 of {infer, goto, goto(follow_imports), help, complete, get_references, get_references(file), rename, get_context} each; a function used by 8-36 other project files (per-query limits of the project-wide name search); KeyboardInterrupt in the host at a chosen helper request as a further failing-query kind; names that differ only in case (ties on the completion sort key) in project modules; slices of the repository\'s completion fixtures (corpus).',
+   text='The nondeterminism sources are the explored dimensions: each generated input (world + buffer with multi-valued shapes + probe table incl. failing requests) is executed in a base process (every probe on a fresh Script) and in K further processes differing in PYTHONHASHSEED, seeded allocator perturbation and GC schedule (ASLR off, so a run is a function of its spec); then on ONE Script under a seeded schedule (permutation with repetitions, ValueError/RefactoringError requests in between) and under the same schedule with 1-3 helper replies replaced by exceptions through the pipe proxy. Oracle: every occurrence of a probe, in any process or schedule position, equals the base result as an ordered list (set for goto). Input families: multi-valued shapes, many call sites of one function, dynamic-parameter search (self-recursive, mutually recursive, many call sites with a late distinguishing argument), arithmetic on literals; the length of the project path is a further configuration dimension; injected helper exceptions are biased towards reference/rename/search queries. Further families: few positions asked with 3-5 of {infer, goto, goto(follow_imports), help, complete, get_references, get_references(file), rename, get_context} each; a function used by 8-36 other project files (per-query limits of the project-wide name search); KeyboardInterrupt in the host at a chosen helper request as a further failing-query kind; one process configuration asks the probes in reversed order (each on its own fresh Script) so that state a query leaves in the process shows; list and set literal loops; names that differ only in case (ties on the completion sort key) in project modules; slices of the repository\'s completion fixtures (corpus).',
    design_ref='DESIGN.md §3 C16',
    note='Seeded sampling of (hash seed, heap layout, schedule); a clean batch is evidence, not proof. Asynchronous exceptions in the host are injected only as KeyboardInterrupt at the moment a helper request is about to be sent. A query that swallowed an injected helper exception (did not raise) makes the rest of that Script inconclusive. RecursionError results are inconclusive (no typeshed in this sandbox).',
    technique='deterministic simulation: seeded hash-seed x allocator x GC x query-schedule exploration with injected failing requests, cross-run equality oracle'),
  'C08': dict(
    category='exploration',
-   text='Seeded edit histories (line/char insert/delete/replace, indent/dedent, paste from project files, undo, char-by-char typing, callee-signature edits that keep the call site, moving/renaming definitions) over 1-3 buffers (pathed and path-less, interleaved) in ONE long-lived subject whose clock is simulated (advances from 1 ms to 1 day and backwards, crossing the 3 s signature cache, the 10 min parso eviction cutoff and the 10 min environment cache) and whose cache knobs are drawn per run (parso size trigger 1/2/8/600 so the eviction path runs, signature validity 0/3/1e6, fast_parser on/off), with clear_time_caches, Project.search and GC ops in between. After every edit a new Script answers 4-10 probes at positions sampled from the current text; oracle = a pristine process (empty caches, new helper) asked the same probes on the same text. The precondition (incremental tree == from-scratch parse) is checked at every step. Further families: every query re-asks the previous step\'s positional probes of the buffer (sticky probes); an existing project module is opened as a buffer by absolute or cwd-relative path after an importing buffer was analysed; settings.fast_parser is flipped in mid-history. About 15 % of the buffers are slices of the repository\'s own completion fixtures (corpus: decorators, descriptors, nested scopes, comprehensions, broken code) under the same edit ops; 10 % of the cases are a directed signature-cache family (call sites that never move - single-line, continued on later lines, nested, through a rebound name - while the callees change underneath and the clock moves around the 3 s window).',
+   text='Seeded edit histories (line/char insert/delete/replace, indent/dedent, paste from project files, undo, char-by-char typing, callee-signature edits that keep the call site, moving/renaming definitions) over 1-3 buffers (pathed and path-less, interleaved) in ONE long-lived subject whose clock is simulated (advances from 1 ms to 1 day and backwards, crossing the 3 s signature cache, the 10 min parso eviction cutoff and the 10 min environment cache) and whose cache knobs are drawn per run (parso size trigger 1/2/8/600 so the eviction path runs, signature validity 0/3/1e6, fast_parser on/off), with clear_time_caches, Project.search and GC ops in between. After every edit a new Script answers 4-10 probes at positions sampled from the current text; oracle = a pristine process (empty caches, new helper) asked the same probes on the same text. The precondition (incremental tree == from-scratch parse) is checked at every step. Further families: every query re-asks the previous step\'s positional probes of the buffer (sticky probes); an existing project module is opened as a buffer by absolute or cwd-relative path after an importing buffer was analysed; settings.fast_parser is flipped in mid-history. About 15 % of the buffers are slices of the repository\'s own completion fixtures (corpus: decorators, descriptors, nested scopes, comprehensions, broken code) under the same edit ops; 10 % of the cases are a directed signature-cache family (call sites that never move - single-line, continued on later lines, nested, through a rebound name - while the callees change underneath and the clock moves around the 3 s window); star-import lines are toggled among the edits.',
    design_ref='DESIGN.md §3 C08',
    note='Seeded sampling of histories, not enumeration. Buffers never import unsaved open buffers. Per-probe comparison as sorted multisets; RecursionError inconclusive; a mismatch is re-checked against a second oracle process under another hash seed and dropped as oracle-unstable if the oracle disagrees with itself.',
    technique='deterministic simulation: seeded edit-history + simulated clock + cache-knob buggify in a long-lived process, pristine-process reference oracle per step'),
@@ -30,13 +30,13 @@ CLAIMED = {
    technique='deterministic simulation: seeded file-system histories with simulator-assigned timestamps + host restarts on warm cache, pristine-process oracle, counterfactual replay'),
  'C12': dict(
    category='exploration',
-   text='Partial claim: the stateful, two-process content of the statement. Adversarial worlds in which every Python file writes a sentinel when executed (names: conftest, setup, sitecustomize, usercustomize, __main__, gi module/package = settings.auto_import_modules, manage, test_*, _json, math, *.pth, buildout script), project options default / explicit sys_path / added_sys_path / smart_sys_path off / buffer inserting the project into sys.path, subject cwd inside or outside the project. After EVERY op of a seeded session (queries of all kinds, Script.search, Project.search, rename refactorings incl. apply(), helper killed idle or mid-request, helper replies replaced by exceptions at get_module_info/load_module, host restart on the warm pickle cache) the invariants are evaluated: no sentinel; host sys.path/cwd/environ equal baseline and no world module in host sys.modules; helper sys.path/cwd equal their value at helper start (read through the pipe) and no world module in helper sys.modules. Also: sessions on InterpreterEnvironment (compiled analysis inside the host), optional \'\' entry on the host\'s sys.path, unresolvable imports in buffers, and the placement of the project relative to the environment\'s own sys.path (elsewhere / nested below an entry / sibling whose name starts with an entry). Shadow names: project files named like modules that machinery inside the helper imports lazily while looking a module up (setuptools / pkg_resources for the distutils shim on sys.meta_path; _codecs_kr, _multibytecodec, stringprep, quopri behind a PEP 263 cookie), with buffers importing distutils and cookie-declaring modules; the corner (empty-string entry on the sys.path of the host AND cwd inside the project) is entered with adversarial names nothing in the host imports on its own.',
+   text='Partial claim: the stateful, two-process content of the statement. Adversarial worlds in which every Python file writes a sentinel when executed (names: conftest, setup, sitecustomize, usercustomize, __main__, gi module/package = settings.auto_import_modules, manage, test_*, _json, math, *.pth, buildout script), project options default / explicit sys_path / added_sys_path / smart_sys_path off / buffer inserting the project into sys.path, subject cwd inside or outside the project. After EVERY op of a seeded session (queries of all kinds, Script.search, Project.search, rename refactorings incl. apply(), helper killed idle or mid-request, helper replies replaced by exceptions at get_module_info/load_module, host restart on the warm pickle cache) the invariants are evaluated: no sentinel; host sys.path/cwd/environ equal baseline and no world module in host sys.modules; helper sys.path/cwd equal their value at helper start (read through the pipe) and no world module in helper sys.modules. Also: sessions on InterpreterEnvironment (compiled analysis inside the host), optional \'\' entry on the host\'s sys.path, unresolvable imports in buffers, and the placement of the project relative to the environment\'s own sys.path (elsewhere / nested below an entry / sibling whose name starts with an entry). Shadow names: project files named like modules that machinery inside the helper imports lazily while looking a module up (setuptools / pkg_resources for the distutils shim on sys.meta_path; _codecs_kr, _multibytecodec, stringprep, quopri behind a PEP 263 cookie), with buffers importing distutils and cookie-declaring modules; the corner (empty-string entry on the sys.path of the host AND cwd inside the project) is entered with adversarial names nothing in the host imports on its own, and so is the corner in which the sys.path of the host holds the absolute project directory (helper-based environments only).',
    design_ref='DESIGN.md §3 C12',
    note='Not decided: completeness over all project configurations and all routes to __import__ in code the sessions never drive (Interpreter; django/pytest plug-in paths needing those packages). load_unsafe_extensions stays False. Seeded sampling.',
    technique='deterministic simulation: adversarial side-effecting worlds, standing sentinel + host/helper state-conservation invariants after every op, with helper crashes / injected helper exceptions / host restarts'),
  'C07': dict(
    category='exploration',
-   text='Partial claim: the disk-effect clauses and diff<->new-code agreement on generated sources. A content model of the project is kept by the simulator; after EVERY op of seeded histories (Script from disk or from an unsaved edited buffer, rename of functions/classes/attributes/modules/packages/submodules, inline, extract_variable, extract_function, repeated inspection, apply(), GC, clock advance, queries, with a new interpreter on the same disk and warm pickle cache between steps) the real disk is digested and compared: I1 nothing changes before apply(); I2 after apply() the disk equals the model updated with exactly get_changed_files()[p].get_new_code() and get_renames(); I3 get_diff() parses as a unified diff whose hunks turn each original into get_new_code() and whose headers/rename lines name exactly the changed and renamed files; repeated inspection returns the same object. A history runs in ONE long-lived interactive subject per host segment (ops are sent one at a time because positions depend on earlier results), so process state left by earlier Scripts (unsaved buffers, caches) is present; refactor ops carry the order in which an editor calls get_diff()/get_new_code(); some files lack the final newline; a package rename reaches a nested sub-package; apply() dying of anything but RefactoringError is a violation (no disk fault is injected). Worlds also contain CRLF files and non-ASCII text inside and outside the rewritten nodes, a module that imports itself (its rename moves AND changes the file), and steps whose Project root is a sub-directory so that most files lie outside the project.',
+   text='Partial claim: the disk-effect clauses and diff<->new-code agreement on generated sources. A content model of the project is kept by the simulator; after EVERY op of seeded histories (Script from disk or from an unsaved edited buffer, rename of functions/classes/attributes/modules/packages/submodules, inline, extract_variable, extract_function, repeated inspection, apply(), GC, clock advance, queries, with a new interpreter on the same disk and warm pickle cache between steps) the real disk is digested and compared: I1 nothing changes before apply(); I2 after apply() the disk equals the model updated with exactly get_changed_files()[p].get_new_code() and get_renames(); I3 get_diff() parses as a unified diff whose hunks turn each original into get_new_code() and whose headers/rename lines name exactly the changed and renamed files; repeated inspection returns the same object. A history runs in ONE long-lived interactive subject per host segment (ops are sent one at a time because positions depend on earlier results), so process state left by earlier Scripts (unsaved buffers, caches) is present; refactor ops carry the order in which an editor calls get_diff()/get_new_code(); some files lack the final newline; a package rename reaches a nested sub-package; apply() dying of anything but RefactoringError is a violation (no disk fault is injected). Worlds also contain CRLF files and non-ASCII text inside and outside the rewritten nodes, a module that imports itself (its rename moves AND changes the file), and steps whose Project root is a sub-directory so that most files lie outside the project; 20 % of the cases run with cwd = project and a Project built from a relative pathlib.Path.',
    design_ref='DESIGN.md §3 C07',
    note='Not decided: byte preservation and diff well-formedness over all inputs (CRLF, missing final newline, unicode), and the exception contract - input-universal. No disk faults injected (the statement promises nothing about a failing apply()). One listed finding (hunk ranges count a phantom line at EOF) is tolerated by the diff parser in exactly that form and reported as KNOWN-FINDING.',
    technique='deterministic simulation: simulated file-system content model vs real disk after every op of seeded refactor/inspect/apply histories'),
